@@ -119,14 +119,6 @@ Section More.
   Qed.
 
   (* ---- Markdown: the lines are written back ---- *)
-  Lemma forest_solid : forall f n k, (odepth n <= f)%nat -> Forall solid (olines k n).
-  Proof.
-    induction f as [|f IH]; intros [c body kids] k Hd; [cbn [odepth] in Hd; lia|].
-    cbn [Outline.olines]. constructor; [cbn [solid]; destruct Hb as [->|[->| ->]]; reflexivity|].
-    apply Forall_forall. intros l Hl. apply in_map_iff in Hl as (y & <- & Hy). apply in_flat_map in Hy as (x & Hx & Hy).
-    pose proof (IH x sub (odepth_kid _ _ _ _ _ Hx Hd)) as A. rewrite Forall_forall in A. specialize (A y Hy). destruct y; exact A.
-  Qed.
-
   Lemma md_outline_item : forall f n k, (odepth n <= f)%nat -> owf n = true ->
     block_lines (mkMopts false) None (otok k n) = map bare (olines k n).
   Proof.
@@ -137,9 +129,6 @@ Section More.
     { unfold Outline.oforest. rewrite flat_map_concat_map, map_map, <- flat_map_concat_map.
       rewrite (TocNest.map_flat_map bare). apply TocNest.flat_map_ext_in. intros x Hx.
       rewrite forallb_forall in Hkids. apply IH; [eapply odepth_kid; eassumption|apply Hkids; exact Hx]. }
-    assert (Sol : Forall solid (oforest sub kids)).
-    { unfold Outline.oforest. apply Forall_forall. intros l Hl. apply in_flat_map in Hl as (x & Hx & Hl).
-      pose proof (forest_solid f x sub (odepth_kid _ _ _ _ _ Hx Hd)) as A. rewrite Forall_forall in A. apply A. exact Hl. }
     cbn [Outline.otok block_lines normalize_ws i_prepend i_indentation i_leader sub_opt].
     assert (Bl : flat_map (block_lines (mkMopts false) None)
                    (Paragraph [RawText (c :: body)] :: match kids with [] => [] | _ :: _ => [List None false (map (otok sub) kids)] end) =
@@ -154,10 +143,8 @@ Section More.
     assert (Ep : spaces (Z.of_nat w - len [b] - Z.of_nat k) = repeat 32 pad) by (unfold spaces, len, w; cbn [length]; f_equal; lia).
     unfold prefix_lines. rewrite Ew, Ek, Ep. destruct w as [|w'] eqn:E0; [lia|].
     cbn [repeat prefix_from]. change (32 :: repeat 32 w') with (repeat 32 (S w')).
-    rewrite (prefix_from_false_embed _ (S w') (oforest sub kids) (Nat.lt_0_succ _) Sol).
-    assert (Nsp : isspace ((repeat 32 k ++ [b] ++ repeat 32 pad) ++ c :: body) = false).
-    { apply (isspace_false_with _ b); [apply in_or_app; left; apply in_or_app; right; left; reflexivity|destruct Hb as [->|[->| ->]]; reflexivity]. }
-    rewrite Nsp. cbn [Outline.olines map bare]. f_equal; [rewrite <- !app_assoc; reflexivity|]. unfold Outline.oforest. first [rewrite <- E0; reflexivity|rewrite E0; reflexivity|subst w; rewrite E0; reflexivity].
+    rewrite (prefix_from_false_embed _ (S w') (oforest sub kids) (Nat.lt_0_succ _)).
+    cbn [nonempty orb Outline.olines map bare]. f_equal; [rewrite <- !app_assoc; reflexivity|]. unfold Outline.oforest. first [rewrite <- E0; reflexivity|rewrite E0; reflexivity|subst w; rewrite E0; reflexivity].
   Qed.
 
   Theorem outline_round_trip k ns : (k <= 3)%nat -> ns <> [] -> forallb owf ns = true ->
